@@ -203,7 +203,7 @@ def eval_pair(case):
 def campaigns(tier):
     q = tier == "quick"
     return [
-        Campaign("intruder", "hyp", evaluate=eval_pair, strategy=lambda: pairs(PF), n=1200 if q else 30000, floor_nontrivial=0.2,
+        Campaign("intruder", "hyp", evaluate=eval_pair, strategy=lambda: pairs(PF), n=2000 if q else 30000, floor_nontrivial=0.2,
                  describe="whole-slot base projects with calendars, limits, groups, teams; forward and backward"),
         Campaign("intruder_short", "hyp", evaluate=eval_pair, strategy=lambda: pairs(PF_SHORT), n=500 if q else 10000,
                  describe="2-4 week projects with intruders pinned near the declared end (horizon channel)"),
